@@ -37,6 +37,9 @@ pub enum Pattern {
     DeafApp,
     /// both directions stream at once, but the TARGET reads nothing before it has written everything
     DeafTarget,
+    /// the target starts to read this many milliseconds after it has recognised the flow (what was uploaded meanwhile waits
+    /// in the relay's connection to the target: closing that connection must not throw it away)
+    SlowTarget(u64),
 }
 
 #[derive(Clone, Copy, Debug, PartialEq, Eq, Hash)]
@@ -376,6 +379,9 @@ async fn target_conn(mut s: TcpStream, _peer: SocketAddr, reg: Arc<Registry>, li
     {
         let (mut r, mut w) = s.split();
         let reader = async {
+            if let Pattern::SlowTarget(ms) = spec.pattern {
+                tokio::time::sleep(Duration::from_millis(ms)).await;
+            }
             pump_in(&mut r, &mut ver, &reg, &flow.target, None).await;
         };
         let writer = async {
